@@ -68,6 +68,15 @@ def enumerated(tier, seed):
             for root in G.nodes():
                 cases.append({"kind": "identity", "name": f"atlas{i}-big", "edges": [[f(a), f(b)] for a, b in G.edges()],
                               "root": f(root)})
+    # u handed over as plain Python ints (any real u is legal), large enough that a product leaves the int64 range
+    tri = [[0, 1], [1, 2], [0, 2]]
+    c4 = [[0, 1], [1, 2], [2, 3], [3, 0]]
+    for edges, us in ((tri, [1, 2 ** 32, 2 ** 32]), (tri, [2 ** 40, 2 ** 31, 3]), (tri, [1, 3037000500, -3037000500]),
+                      (c4, [1, 2 ** 21, 2 ** 21, 2 ** 22]), (c4, [2, 10 ** 7, 10 ** 7, 10 ** 6]), (tri, [0, 3, 5])):
+        n = len(us)
+        cases.append({"kind": "history", "pool": [{"name": f"ints{len(cases)}", "edges": edges}], "plain": True, "ints": True,
+                      "abort_after": 0,
+                      "steps": [{"m": 0, "root": r, "phi": ph, "u": [[x, 1] for x in us]} for r in range(n) for ph in ([1, 2], [1, 3])]})
     return cases
 
 
@@ -308,10 +317,10 @@ def check(case):
         env = {f"u{v}": x for v, x in us.items()}
         env["p"] = phi
         if case.get("plain"):
-            G = graph_of(mo["name"], mo["edges"], {v: (float(x) if x else (0 if v % 2 else 0.0)) for v, x in us.items()})
+            G = graph_of(mo["name"], mo["edges"], {v: (int(x) if case.get("ints") else float(x) if x else (0 if v % 2 else 0.0)) for v, x in us.items()})
             got = call("automated_equation", AE.automated_equation, G, float(phi), int(str(stp["root"])))
             wv = oracle_poly(mo["edges"], stp["root"]).subs(env)
-            if abs(float(got) - float(wv)) > 1e-9:
+            if abs(float(got) - float(wv)) > 1e-9 * max(1.0, abs(float(wv))):
                 raise Violation("history-dependence", f"step {si} of {len(case['steps'])} on a shared evaluator (plain float arguments): "
                                                       f"motif {mo['name']} edges {mo['edges']} focal {stp['root']} phi {float(phi)} u {us}: got "
                                                       f"{got!r}, exact expectation {float(wv)!r}; earlier steps {case['steps'][:si]}")
